@@ -53,8 +53,9 @@ FILTERS = [
     ("!", ("&&", ("<", Z, ("const", TWO)), ("!=", X, X))), ("!", ("||", ("<", Z, ("const", TWO)), ("=", X, X))),
     ("!", ("<", Z, ("const", TWO))), ("exists", ("bgp", [(X, Q, W)])), ("notexists", ("bgp", [(Y, P, W)])),
     ("=", ("coalesce", [Z, Y]), ("const", B)), ("=", ("if", ("bound", "z"), Z, X), ("const", A)), ("sameterm", X, Y), ("isiri", Y),
+    ("const", S.FALSE), ("const", ZERO),  # constant filters: the expression itself is a falsy term
 ]
-FILTERS_SMALL = [FILTERS[i] for i in (0, 2, 4, 7, 10)]
+FILTERS_SMALL = [FILTERS[i] for i in (0, 2, 4, 7, 10, 16)]
 BINDS = [(("+", Z, ("const", ONE)), "w"), (("coalesce", [Z, X]), "w"), (("if", ("bound", "y"), Y, ("const", A)), "w"), (("const", A), "z")]
 VALUES = [(["x"], [(A,)]), (["x"], [(A,), (B,)]), (["x", "z"], [(A, ONE), (B, None)]), (["z"], []), (["y"], [(B,), (B,)]), (["z"], [(ZERO,)])]
 PROJECTIONS = [["x"], ["y"], ["x", "z"], ["z"]]
